@@ -285,13 +285,42 @@ class Validator:
             ln = bad_line - sum(len(h) for h in rest[:rest.index(culprit)])
             what = "%s history %d: no behaviour of the specification (strict, or as built with %s) reproduces line %d: %s" % (
                 kind, hist_id(culprit), self.open_devs, ln, culprit[ln - 1][:300] if 0 < ln <= len(culprit) else "?")
-            ctx.deviation(None, what, dict(kind="history", source=kind, file=keep, lines=[json.loads(x) for x in culprit]))
+            fid = None
+            if kind == "stress" and "IndexLocalClaim" in self.open_devs and double_claim(culprit):
+                # Open finding D_C11_IndexLocalClaim: a claim only removes the record from the one beacon it walks, so
+                # claimers on different beacons (ascending / descending, expiry / key) hand out the same record. The
+                # as-built model reproduces the usual two-claimer consequences; with three overlapping claimers on
+                # different beacons it does not reproduce every one. A concurrent history in which one record is
+                # selected by two different claim calls contains that finding's essence and is attributed to it while
+                # it is open (count in evidence: double_claim_attributed).
+                fid = self.devs.get("IndexLocalClaim")
+                ctx.extra["double_claim_attributed"] = ctx.extra.get("double_claim_attributed", 0) + 1
+                what += " [attributed to the open finding: the history contains a record selected by two different claim calls]"
+            ctx.deviation(fid, what, dict(kind="history", source=kind, file=keep, lines=[json.loads(x) for x in culprit]))
             i = rest.index(culprit)
             # histories before the culprit were judged above; continue with the ones after it
             rest = rest[i + 1:]
             if not rest:
                 return
         raise vlib.Inconclusive("too many unexplained histories in %s" % label)
+
+
+def double_claim(h):
+    """True iff some key occurs in the selections (sel events) of two different claim calls of the history."""
+    seen = {}
+    n = 0
+    for x in h:
+        try:
+            e = json.loads(x)
+        except Exception:
+            continue
+        if e.get("ev") == "sel":
+            n += 1
+            for k in e.get("keys", []):
+                if k in seen and seen[k] != n:
+                    return True
+                seen.setdefault(k, n)
+    return False
 
 
 DEADLOCK = "D_C11_LockOrderDeadlock"
